@@ -6,6 +6,8 @@ From MV Require Import Base.Res.
 From MV Require Import Opt.OptModel.
 From MV Require Import Opt.OptSafe.
 From MV Require Import Opt.OptComments.
+From MV Require Import Opt.YamlSpec.
+From MV Require Import Opt.OptAgreeAll.
 From MV Require Import Dir.PyLines.
 From MV Require Import Dir.PyLinesProofs.
 From MV Require Import Dir.DirModel.
@@ -75,4 +77,47 @@ Proof.
   intros Hh Hna Hfl doc Hw.
   apply lines_nested; auto.
   intros content line. apply (parse_ok_when c07_tokenize yaml_load sg fl Hna c07_only_tokenize_error).
+Qed.
+
+(* the pairs premise from C07_final_newline_optional: a block of lines that is the text (without its final line feed) of
+   a well-formed C07 block whose last item is a key without value or with a flow scalar *)
+Definition c07_block_text (t : str) : Prop :=
+  exists lead items, t = print_block (BK lead items false) /\
+                     wf_block (BK lead items true) = true /\ last_item_ok items = true.
+
+Lemma c07_pairs_final_newline t : c07_block_text t -> options_to_items (t ++ nl) = options_to_items t.
+Proof.
+  intros [lead [items [-> [Hw Hl]]]].
+  change nl with [10%N]. rewrite <- (print_block_nolf lead items Hl).
+  symmetry. apply final_newline_optional; assumption.
+Qed.
+
+Theorem styles_interchangeable_c07_block yaml_load sg fl c1 c2 d0 d1 kvs B line v add :
+  has_option_spec sg = true ->
+  kvs <> [] -> Forall kv_line kvs ->
+  splitlines c1 = map (fun l => c_colon :: l) kvs ++ B -> is_colon_line (hd_line B) = false ->
+  splitlines c2 = d0 :: kvs ++ d1 :: B -> is_dash_line d0 = true -> is_dash_line d1 = true ->
+  c07_block_text (join_nl kvs) ->
+  has_comments (join_nl kvs ++ nl) = has_comments (join_nl kvs) ->
+  yaml_load (join_nl kvs ++ nl) = yaml_load (join_nl kvs) ->
+  res_rel (result_rel sg fl 2)
+          (parse_directive_text c07_tokenize yaml_load sg fl c1 line v add)
+          (parse_directive_text c07_tokenize yaml_load sg fl c2 line v add).
+Proof.
+  intros Hh Hne Hk L1 HB L2 H0 H1 Hb Hc Hy.
+  apply (styles_interchangeable_c07 yaml_load sg fl c1 c2 d0 d1 kvs B line v add); auto.
+  apply c07_pairs_final_newline. exact Hb.
+Qed.
+
+(* non-vacuity: "class: x" / "name: y" is such a block text, made of kv_lines *)
+Definition ex_kvs : list str := [[99; 108; 97; 115; 115; 58; 32; 120]; [110; 97; 109; 101; 58; 32; 121]]%N.
+Definition ex_items : list item :=
+  [IKV (KPlain (PL [99; 108; 97; 115; 115]%N [])) 0 (VFlow 1 (FPlain (PL [120]%N []) []) 0 None) [];
+   IKV (KPlain (PL [110; 97; 109; 101]%N [])) 0 (VFlow 1 (FPlain (PL [121]%N []) []) 0 None) []].
+
+Lemma ex_kvs_block_text : c07_block_text (join_nl ex_kvs) /\ Forall kv_line ex_kvs.
+Proof.
+  split.
+  - exists [], ex_items. repeat split; vm_compute; reflexivity.
+  - repeat constructor; try reflexivity; eexists; eexists; split; reflexivity.
 Qed.
